@@ -41,7 +41,7 @@ func scanOutDeg(c *core.Ctx) []ob {
 			return
 		}
 		rel := core.ShortPkg(pk.PkgPath)
-		if !c.IsFixture && !(strings.HasPrefix(rel, "schemes/") || strings.HasPrefix(rel, "core/rlwe") || strings.HasPrefix(rel, "core/rgsw")) {
+		if !c.IsFixture && !(strings.HasPrefix(rel, "schemes/") || strings.HasPrefix(rel, "core/rlwe") || strings.HasPrefix(rel, "core/rgsw") || strings.HasPrefix(rel, "circuits/")) {
 			return
 		}
 		fn, _ := pk.TypesInfo.Defs[fd.Name].(*types.Func)
@@ -223,9 +223,78 @@ func scanOutDeg(c *core.Ctx) []ob {
 				})
 				return true
 			})
+			// components addressed one by one: X.Value[0], X.Value[1] handed to a callee that writes them / copied into
+			writesConst := false
 			if !writesInLoop {
+				eff := effFor(c)
+				isXValueConst := func(e ast.Expr) bool {
+					ie, ok := unparen(e).(*ast.IndexExpr)
+					if !ok {
+						return false
+					}
+					if _, isConst := unparen(ie.Index).(*ast.BasicLit); !isConst {
+						return false
+					}
+					se, ok := unparen(ie.X).(*ast.SelectorExpr)
+					return ok && se.Sel.Name == "Value" && identObj(info, se.X) == x
+				}
+				// views taken for writing: c0 := opOut.Value[0] / ringqp.Poly{Q: opOut.Value[0], ..}
+				ast.Inspect(d.fd.Body, func(y ast.Node) bool {
+					switch v := y.(type) {
+					case *ast.KeyValueExpr:
+						if isXValueConst(v.Value) {
+							writesConst = true
+						}
+					case *ast.AssignStmt:
+						for _, r := range v.Rhs {
+							if isXValueConst(r) {
+								writesConst = true
+							}
+						}
+					}
+					return true
+				})
+				ast.Inspect(d.fd.Body, func(y ast.Node) bool {
+					call, ok := y.(*ast.CallExpr)
+					if !ok {
+						return true
+					}
+					if se, ok := unparen(call.Fun).(*ast.SelectorExpr); ok && isXValueConst(se.X) && (strings.HasPrefix(se.Sel.Name, "Copy") || se.Sel.Name == "Zero") {
+						writesConst = true
+					}
+					for _, cf := range eff.callees(info, call) {
+						if sm := eff.sums[cf]; sm != nil {
+							for ai, a := range call.Args {
+								if sm.wParams[ai] && isXValueConst(a) {
+									writesConst = true
+								}
+							}
+						}
+					}
+					return true
+				})
+			}
+			if !writesInLoop && !writesConst {
 				continue
 			}
+			// a guard on the output's degree that refuses anything else
+			degreeGuard := false
+			ast.Inspect(d.fd.Body, func(y ast.Node) bool {
+				is, ok := y.(*ast.IfStmt)
+				if !ok || degreeGuard {
+					return !degreeGuard
+				}
+				if !leavesWithError(is.Body) {
+					return true
+				}
+				ast.Inspect(is.Cond, func(z ast.Node) bool {
+					if se, ok := z.(*ast.SelectorExpr); ok && se.Sel.Name == "Degree" && mentions(info, se.X, x) {
+						degreeGuard = true
+					}
+					return true
+				})
+				return true
+			})
 			// accumulating operations add into the output: its higher components are part of the accumulator
 			if strings.Contains(d.fd.Name.Name, "ThenAdd") || strings.Contains(d.fd.Name.Name, "ThenSub") {
 				continue
@@ -235,6 +304,9 @@ func scanOutDeg(c *core.Ctx) []ob {
 			key := fmt.Sprintf("OUTDEG:%s#%s", fkey, x.Name())
 			props := metaProps(fkey)
 			switch {
+			case degreeGuard:
+				out = append(out, withProps(okOb("OUTDEG", key, c.Rel(d.fd.Pos()), "an output of another degree is refused with an error", true), props...))
+				continue
 			case boundByX:
 				out = append(out, withProps(okOb("OUTDEG", key, c.Rel(d.fd.Pos()), "a loop of the function is bounded by the output's own degree", true), props...))
 				continue
@@ -258,7 +330,22 @@ func scanOutDeg(c *core.Ctx) []ob {
 					}
 				}
 				ao := identObj(cl.d.pk.TypesInfo, arg)
-				if ao == nil || !resizedFree(cl.d.pk.TypesInfo, cl.d.fd, ao, cl.call) {
+				// an element the caller has built itself (not one of its parameters) has the degree the caller chose
+				if ao != nil {
+					isParam := false
+					if cfn, ok := cl.d.pk.TypesInfo.Defs[cl.d.fd.Name].(*types.Func); ok {
+						csig := cfn.Type().(*types.Signature)
+						for q := 0; q < csig.Params().Len(); q++ {
+							if csig.Params().At(q) == ao {
+								isParam = true
+							}
+						}
+					}
+					if !isParam {
+						continue
+					}
+				}
+				if ao == nil || !(resizedFree(cl.d.pk.TypesInfo, cl.d.fd, ao, cl.call) || degreeGuarded(cl.d.pk.TypesInfo, cl.d.fd, ao)) {
 					allOK = false
 					bad = core.FuncKey(cl.d.pk, cl.d.fd) + " at " + c.Rel(cl.call.Pos())
 					break
@@ -272,7 +359,7 @@ func scanOutDeg(c *core.Ctx) []ob {
 			if bad != "" {
 				where = "its caller " + bad + " passes an output whose degree includes its previous degree"
 			}
-			out = append(out, withProps(violOb("OUTDEG", key, c.Rel(d.fd.Pos()), fmt.Sprintf("%s writes the components of %s in loops bounded by the degrees of the operands only, never resizes it to a degree of its own choosing and has no loop over the components %s itself has; %s: the components above the operands' degree keep what the receiver held before", fkey, x.Name(), x.Name(), where)), props...))
+			out = append(out, withProps(violOb("OUTDEG", key, c.Rel(d.fd.Pos()), fmt.Sprintf("%s writes the components of %s up to the degree of the operands (or by constant index) only, never resizes it to a degree of its own choosing and has no loop over the components %s itself has; %s: the components above the operands' degree keep what the receiver held before", fkey, x.Name(), x.Name(), where)), props...))
 		}
 	}
 	c.Stats["outdeg_fns"] = n
@@ -304,4 +391,28 @@ func init() {
 			}
 			return out
 		}})
+}
+
+// degreeGuarded: the function refuses, with an error, an element o whose degree is not the expected one.
+func degreeGuarded(info *types.Info, fd *ast.FuncDecl, o types.Object) bool {
+	found := false
+	ast.Inspect(fd.Body, func(y ast.Node) bool {
+		is, ok := y.(*ast.IfStmt)
+		if !ok || found {
+			return !found
+		}
+		if !leavesWithError(is.Body) {
+			return true
+		}
+		ast.Inspect(is.Cond, func(z ast.Node) bool {
+			if se, ok := z.(*ast.SelectorExpr); ok && se.Sel.Name == "Degree" {
+				if identObj(info, se.X) == o {
+					found = true
+				}
+			}
+			return true
+		})
+		return true
+	})
+	return found
 }
